@@ -1,5 +1,6 @@
 import GodiProofs.Props.C06
 import GodiProofs.Props.C05
+import GodiProofs.Graph.Remove
 /-!
 # C19 — The dependency graph always agrees with a plain digraph model
 
@@ -9,11 +10,11 @@ fields agree with the adjacency lists) is re-established by every operation that
 `updateDegrees`, for every iteration order of the `edges` map. Under `Base ∧ Synced` every query
 equals the plain digraph's answer.
 
-Proved here: deferred add (+ the documented `DetectCycles`), `Clear`, all queries, cache freshness of
-the sort. The refinement of the *immediate* `AddProvider` (including "a rejected add leaves the graph
-exactly as it was") and of `RemoveProvider` is stated (`addProvider_refines_statement`,
-`removeProvider_refines_statement`) and covered by the exhaustive correspondence stream (every op
-sequence of length ≤ 3 over 3 identities, all queries after every step) — `_partial`.
+Proved here: deferred add (+ the documented `DetectCycles`), `RemoveProvider`, `Clear`, all queries,
+cache freshness of the sort. The refinement of the *immediate* `AddProvider` (including "a rejected add
+leaves the graph exactly as it was") is stated (`addProvider_refines_statement`) and covered by the
+exhaustive correspondence stream (every op sequence of length ≤ 3 over 3 identities, all queries after
+every step) — `_partial`.
 -/
 namespace Godi.Props.C19
 open Godi.Kahn (Key)
@@ -151,11 +152,17 @@ def addProvider_refines_statement : Prop :=
     (r.2 = .ok → r.1.edges = upd g.edges k ds ∧ ∀ x, x ∈ r.1.nodes ↔ x ∈ g.nodes ∨ x = k ∨ x ∈ ds) ∧
     (r.2 ≠ .ok → r.1.edges = g.edges ∧ ∀ x, x ∈ r.1.nodes ↔ x ∈ g.nodes)
 
-def removeProvider_refines_statement : Prop :=
-  ∀ (g : Graph) (k : Key), Base g →
+/-- REMOVE refines "delete the node and every edge pointing at it" (and is a no-op for an unknown
+node): afterwards the invariant holds, every derived field is in sync, the node is gone, every
+adjacency list has lost it and nothing else changed -/
+theorem remove_refines (g : Graph) (b : Base g) (k : Key) (hk : k ∈ g.nodes) :
     Base (removeProvider g k) ∧ Synced (removeProvider g k) ∧
     (∀ x, x ∈ (removeProvider g k).nodes ↔ x ∈ g.nodes ∧ x ≠ k) ∧
-    (∀ x, x ≠ k → (removeProvider g k).edges x = (g.edges x).filter (· ≠ k))
+    (∀ x, (removeProvider g k).edges x = if x = k then [] else (g.edges x).filter (· ≠ k)) :=
+  removeProvider_refines g b k hk
+
+theorem remove_unknown_noop (g : Graph) (k : Key) (hk : k ∉ g.nodes) : removeProvider g k = g := by
+  unfold removeProvider; simp [hk]
 
 /-- the rejected add of the statement above, on the D14 witness: node 1 exists as a placeholder
 (2 depends on it); adding 1 → 2 closes a cycle, is rejected, and the graph is as before -/
